@@ -12,6 +12,7 @@ CONSTANTS
 INVARIANTS
   JunkSafeInv
   OthersUntouched
+  SpliceConsistent
   EmitCase
 PROPERTIES
   JunkSafe
